@@ -29,7 +29,7 @@ def make_env(desc, fam, extra_names=()):
     for name, typ in skel.leaves(desc):
         if typ == "unbound":
             continue
-        if typ == "num":
+        if typ in ("num", "tnum"):
             lo, hi = NUM_RANGE[fam]
             v, cs = sym.var(name, fam, lo, hi)
         elif typ == "exp":
